@@ -377,7 +377,7 @@ def rust_types(sh, name, out, derives, struct_attr='', setters=None):
             attr = setter_attr(setters[0], i, setters[2]) + attr
         fields.append(f"    {attr}\n    pub {fn}: {ty}," if attr else f"    pub {fn}: {ty},")
         if setters is not None and i in setters[1]:
-            setarms.append(f"            {i} => Some(self.{setters[1][i]}(<{ty} as Fconv>::fv(v, 0))),")
+            setarms.append(f"            {i} => {{ let val = <{ty} as Fconv>::fv(v, 0); let r = self.{setters[1][i]}(val.clone()); if self.{fn} != val {{ STORE_MISMATCH.store(true, std::sync::atomic::Ordering::SeqCst); }} Some(r) }},")
         fromv.append(f"            {fn}: <{ty} as Fconv>::fv(&fs[{i}], {1 if s == 'U' else 0}),")
         tov.append(f"            self.{fn}.tv({1 if s == 'U' else 0}),")
     out.append(f"#[derive({derives})]\n#[cfg_attr(feature = \"ns\", derive(nanoserde::SerBin, nanoserde::DeBin))]\n#[cfg_attr(feature = \"sd\", derive(serde::Serialize, serde::Deserialize))]\n{struct_attr}pub struct {name} {{\n" + '\n'.join(fields) + "\n}\n"
